@@ -247,7 +247,7 @@ impl CxlFixedMemory {
     }
 
     pub fn cxl_type_3_memory(mut self) -> Self {
-        self.window_restrictions |= WindowRestrictions::CxlType2Memory as u16;
+        self.window_restrictions |= WindowRestrictions::CxlType3Memory as u16;
         self
     }
 
